@@ -2225,6 +2225,17 @@ impl TieredEngine {
         self.cold_tier
             .insert(doc_id, embedding.clone(), metadata.clone())?;
 
+        // Keep recent writes in hot tier to accelerate mixed hot/cold search merges.
+        // The mirror entry must be in place BEFORE the query cache is invalidated: a search that
+        // starts after the invalidation may store its result again, and the cold tier's approximate
+        // search can miss the new document (e.g. among tombstones). Without the mirror entry that
+        // result would lack an acknowledged write and nothing would invalidate it afterwards.
+        let coherence = self.cold_tier.current_coherence_token(doc_id);
+        if let Some(coherence) = coherence {
+            self.hot_tier
+                .insert_with_coherence(doc_id, embedding.clone(), metadata, coherence);
+        }
+
         let removed_by_doc = self.query_cache.invalidate_doc(doc_id);
         let removed_by_insert = self
             .query_cache
@@ -2236,13 +2247,11 @@ impl TieredEngine {
             "invalidated query cache entries affected by insert"
         );
 
-        // Keep recent writes in hot tier to accelerate mixed hot/cold search merges.
-        let coherence = self
-            .cold_tier
-            .current_coherence_token(doc_id)
-            .ok_or_else(|| anyhow!("insert succeeded but cold tier has no canonical token"))?;
-        self.hot_tier
-            .insert_with_coherence(doc_id, embedding, metadata, coherence);
+        if coherence.is_none() {
+            return Err(anyhow!(
+                "insert succeeded but cold tier has no canonical token"
+            ));
+        }
 
         let mut stats = self.stats.write();
         stats.total_inserts += 1;
